@@ -8,6 +8,7 @@ package checks
 
 import (
 	"bufio"
+	"crypto/sha256"
 	"encoding/binary"
 	"encoding/json"
 	"fmt"
@@ -15,6 +16,7 @@ import (
 	"os/exec"
 	"path/filepath"
 	"runtime"
+	"sort"
 	"strconv"
 	"strings"
 	"sync"
@@ -38,6 +40,7 @@ type c05Base struct {
 	name string
 	spec *dbgen.Spec
 	img  *dbgen.Image
+	only map[string]bool // nil: every family; else the families run on this base in the quick tier
 }
 
 func c05Bases() []c05Base {
@@ -47,7 +50,7 @@ func c05Bases() []c05Base {
 		if err != nil {
 			panic("c05 base " + name + ": " + err.Error())
 		}
-		out = append(out, c05Base{name, spec, img})
+		out = append(out, c05Base{name, spec, img, nil})
 	}
 	// B0: two-level table tree + all T1 indexes (one of them two-level)
 	t1 := T1(rowidSet(7, 2), 0)
@@ -66,6 +69,12 @@ func c05Bases() []c05Base {
 	t3 := T3(5)
 	add("t3-multipage-master", &dbgen.Spec{PageSize: 512, Tables: []dbgen.Table{t3, T2(2, 0)},
 		MasterTree: &dbgen.Tree{Kids: []*dbgen.Tree{{N: 2}, {N: 2}, {N: 1}}}})
+	// B4: overflow chains in sqlite_master (a definition longer than a page), in a WITHOUT ROWID table and in its index
+	t2b := T2(4, 1300)
+	t3b := T3(2)
+	t3b.SQL = strings.Replace(t3b.SQL, "(", strings.Repeat(" ", 1100)+"(", 1)
+	add("master-and-without-rowid-overflow", &dbgen.Spec{PageSize: 512, Tables: []dbgen.Table{t3b, t2b}})
+	out[len(out)-1].only = map[string]bool{"chain": true, "field": true, "trunc": true}
 	return out
 }
 
@@ -282,6 +291,49 @@ func c05Enumerate(family string, bi int, b *c05Base, thorough bool, fn func(m *c
 				if l%ps == 0 && l+d >= 0 && l+d <= len(orig) {
 					if !emit(fmt.Sprintf("truncated to %d bytes", l+d), "truncated", append([]byte{}, orig[:l+d]...), "") {
 						return
+					}
+				}
+			}
+		}
+	case "chain":
+		// overflow chains that cycle with a tail (the last page points back to the k-th page of the chain)
+		// x declared payload lengths up to 2^62: a two-page, two-field corruption no single-field
+		// mutant reaches. Applied to the first overflowing cells of every object that has any.
+		var owners []string
+		for o, n := range b.img.Spill {
+			if n > 0 {
+				owners = append(owners, o)
+			}
+		}
+		sort.Strings(owners)
+		seen := map[[32]byte]bool{sha256.Sum256(orig): true}
+		for _, o := range owners {
+			for nth := 0; nth < b.img.Spill[o] && nth < 2; nth++ {
+				for _, decl := range []int64{0, 4000, 1 << 20, 1 << 31, 1 << 40, 1 << 62} {
+					for loop := 0; loop <= 4; loop++ {
+						spec := *b.spec
+						spec.Chains = []dbgen.ChainHack{{Owner: o, Nth: nth, DeclLen: decl, LoopTo: loop}}
+						img, err := dbgen.Build(&spec)
+						if err != nil {
+							continue
+						}
+						h := sha256.Sum256(img.Bytes)
+						if seen[h] {
+							continue
+						}
+						seen[h] = true
+						cls := "chain-ends"
+						if loop == 1 {
+							cls = "cycle-through-first-page"
+						} else if loop > 1 {
+							cls = "cycle-with-tail"
+						}
+						if decl > 0 {
+							cls += "+declared-length"
+						}
+						if !emit(fmt.Sprintf("overflow chain of cell #%d of %s: declared payload length %d (0 = real), last page points to page #%d of the chain (0 = end)", nth, o, decl, loop), cls, img.Bytes, "") {
+							return
+						}
 					}
 				}
 			}
@@ -688,7 +740,7 @@ type c05Shard struct {
 }
 
 func runC05(r *ev.Run) {
-	r.Rule = "base images: 4 small dbgen images (<=16 pages of 512 bytes: two-level table and index trees, multi-page overflow chains, WITHOUT ROWID, multi-page sqlite_master); mutants: (field) every structural field x a boundary alphabet (0, 1, +-1, 0x7f/0x80/0xff patterns, own page, every page, page count+1, 9-byte/negative varints, every serial type), (byte) every byte x 8 boundary values (x256 thorough), (trunc) every length multiple of 64 and around page boundaries, (sql) hostile CREATE texts in sqlite_master, (field2, thorough) pairs of related fields in one page, (journal) journal header fields x lengths on real files; every mutant runs every public operation in a worker subprocess; oracle: no panic, live heap < 3 GB, < 20 s CPU per operation. non-trivial = mutants (all differ from the base)"
+	r.Rule = "base images: 5 small dbgen images (512-byte pages: two-level table and index trees, multi-page overflow chains in a rowid table, an index, a WITHOUT ROWID table and sqlite_master itself, multi-page sqlite_master; the fifth image runs the chain, field and trunc families only in the quick tier); mutants: (field) every structural field x a boundary alphabet (0, 1, +-1, 0x7f/0x80/0xff patterns, own page, every page, page count+1, 9-byte/negative varints, every serial type), (byte) every byte x 8 boundary values (x256 thorough), (chain) overflow chains whose last page points back to each page of the chain (cycle through the first page / cycle with a tail) x declared payload lengths {real, 4000, 2^20, 2^31, 2^40, 2^62}, (trunc) every length multiple of 64 and around page boundaries, (sql) hostile CREATE texts in sqlite_master, (field2, thorough) pairs of related fields in one page, (journal) journal header fields x lengths on real files; every mutant runs every public operation in a worker subprocess; oracle: no panic, live heap < 3 GB, < 20 s CPU per operation. non-trivial = mutants (all differ from the base)"
 	bin := os.Getenv("VCHECK_BIN")
 	if bin == "" {
 		bin, _ = os.Executable()
@@ -703,7 +755,7 @@ func runC05(r *ev.Run) {
 		r.Validated(1)
 		r.StateBytes(bases[i].img.Bytes)
 	}
-	families := []string{"field", "record", "byte", "trunc", "sql"}
+	families := []string{"field", "chain", "record", "byte", "trunc", "sql"}
 	if r.Thorough() {
 		families = append(families, "field2")
 	}
@@ -716,6 +768,9 @@ func runC05(r *ev.Run) {
 	var fbs []fb
 	for _, f := range families {
 		for bi := range bases {
+			if !r.Thorough() && bases[bi].only != nil && !bases[bi].only[f] {
+				continue
+			}
 			fbs = append(fbs, fb{f, bi})
 		}
 	}
